@@ -211,8 +211,20 @@ def run_unit(name, repo=None, rlimit=None, outdir=None, extra_args=(), solver=No
                 canary_hits[c["name"]] = canary_hits.get(c["name"], 0) + 1
             continue
         fn = None
+        site_line = None
         for s in [ps] + spans:
             fn = _fn_of_line(unit, s["line_start"])
+            if fn:
+                break
+            # a failure inside a macro body (prelude macro_rules!): follow the expansion chain to the call site
+            e = s.get("expansion")
+            while e and not fn:
+                cs = e.get("span") or {}
+                if cs.get("line_start"):
+                    fn = _fn_of_line(unit, cs["line_start"])
+                    if fn:
+                        site_line = cs["line_start"]
+                e = cs.get("expansion")
             if fn:
                 break
         # tags: nearest /*@..*/ before the highlight on the primary line
@@ -269,7 +281,7 @@ def run_unit(name, repo=None, rlimit=None, outdir=None, extra_args=(), solver=No
             "hint_fail": hint_fail,
             "snippet": snippet,
             "message": msg,
-            "at": _origin(unit, ps["line_start"]),
+            "at": _origin(unit, site_line or ps["line_start"]),
             "exit": exit_loc,
             "unit_line": ps["line_start"],
             "rendered": d.get("rendered", ""),
